@@ -11,7 +11,7 @@ git apply $P 2>/dev/null || res="patch-does-not-apply"
 if [ "$res" = ok ]; then
   suite=$(/verif/tools/baseline.sh $WT | head -1)
   echo "$suite" | grep -q "baseline_missing=0" || res="suite-fails"
-  DEMO=$(mktemp /var/tmp/verif-demo-XXXXXX.py); sed -E "s#/tmp/mut[23456789]?-$ID#$WT#g" $D/demo.py > $DEMO
+  DEMO=$(mktemp /var/tmp/verif-demo-XXXXXX.py); sed -E "s#/tmp/mut(10|[23456789])?-$ID#$WT#g" $D/demo.py > $DEMO
   (cd $D && PYTHONPATH=$WT MPLBACKEND=Agg timeout 600 /venv/bin/python $DEMO >/dev/null 2>&1); with=$?
   git checkout -q -- .
   (cd $D && PYTHONPATH=$WT MPLBACKEND=Agg timeout 600 /venv/bin/python $DEMO >/dev/null 2>&1); without=$?
